@@ -1282,7 +1282,7 @@ def rx_bounds(ops, upto, nconn):
     return reqs, dirty, stopped
 
 
-def life_spec(pid, line, snaps):
+def life_spec(pid, line, snaps, div=None):
     """Property-specific predicate on the snapshots observed on the real server.
     Returns (key, why) or None."""
     P = [parse_snapshot(x) for x in snaps if not x.startswith(("OPFAILED", "DISABLED", "ENABLED"))]
@@ -1292,6 +1292,10 @@ def life_spec(pid, line, snaps):
     except Exception:
         OPS = []
     cfgs = line.split(" ")[2]
+
+    def settled(k):
+        """is snapshot k one the runner waited for (the last one, the one it diverged at, the last before a Stop)?"""
+        return k == len(P) - 1 or (div is not None and k == div) or (OPS and k + 1 < len(OPS) and OPS[k + 1][0] == "stop")
     # responses: a client receives one frame per handler write, and nothing else (no answer to an
     # Unbind, no frame of another connection); a request with a plain script on an undisturbed
     # connection is served.  Judged before any Stop (Stop adds its notice of disconnection).
@@ -1318,12 +1322,12 @@ def life_spec(pid, line, snaps):
                     if it["kind"] == "unbind":
                         after_unbind = True
                         continue
-                    if str(rid) not in ended and not any(st.startswith("b") or st == "hs" for st in it["steps"]) and k == len(P) - 1:
+                    if str(rid) not in ended and not any(st.startswith("b") or st == "hs" for st in it["steps"]) and settled(k):
                         unserved = rid
                 rx = int(c["rx"])
                 if rx > hi:
                     return ("unexpected-frame", "connection %d received %d frames although its handlers wrote at most %d (operation %d): gldap answered something no handler wrote" % (ci, rx, hi, k))
-                if k == len(P) - 1 and rx < lo:
+                if settled(k) and rx < lo:
                     return ("lost-frame", "connection %d received %d frames although handlers that returned wrote %d (operation %d)" % (ci, rx, lo, k))
                 if unserved is not None and pid in ("C07", "C13"):
                     return ("bystander-unserved" if pid == "C07" else "unserved-in-tunnel", "request %d on undisturbed connection %d was not served (operation %d)" % (unserved, ci, k))
@@ -1391,7 +1395,7 @@ def life_spec(pid, line, snaps):
     if pid == "C06" and P and OPS:
         for k, p in enumerate(P):
             reqs, dirty, stopped = rx_bounds(OPS, k + 1, len(p["conns"]))
-            if k != len(P) - 1:
+            if not settled(k):
                 continue
             for ci, c in enumerate(p["conns"]):
                 if dirty.get(ci) or stopped:
@@ -1497,12 +1501,14 @@ def life_check(pid, gens, n, tier, seed, res):
         for o in re.findall(r"\b(run|stop|connect|send|close|stall|release|holdonclose)\b", line):
             opkinds[o] = opkinds.get(o, 0) + 1
         head, _, rest = i.partition(" ")
+        div = None
         if head == "OK":
             snaps = rest.split(" # ")
         else:
-            _, _, rest2 = rest.partition(" ")
+            dk, _, rest2 = rest.partition(" ")
             snaps = rest2.split(" # ")
-        v = life_spec(pid, line, snaps)
+            div = int(dk) if dk.isdigit() else None
+        v = life_spec(pid, line, snaps, div)
         if v is not None:
             res.violation(v[0], line, i[:1500], pred.get(k, "")[:1500], v[1])
         elif head != "OK":
